@@ -20,8 +20,8 @@ def register(PROPS):
                  'reported.  The reference model is the union of the occurrence lists of the constituents (each obtained by draining a '
                  'separately parsed copy of that constituent alone), sorted by start, an occurrence with the same UID and instant in '
                  'several constituents kept once; occurrences of different UIDs at one instant may come in either order.  After every '
-                 'prefix the stream is cloned and the clone must deliver what the original goes on to deliver.  A further driver (c02_zonemix, mode rdate) feeds RDATE lists whose values are written in different forms (UTC / three fixed-offset zones, every assignment) and requires the stream to be non-decreasing and complete.  A third driver (c03_forms) merges every subset of 2-3 (thorough 2-5) out of eight constituents whose occurrences are WRITTEN differently - all-day dates (daily and weekly), UTC date-times at 00:00:00, 12:00 and 23:59:59, local times of Europe/Berlin (across its DST switch), America/New_York and Asia/Tokyo that fall on or next to UTC midnight - by vmux in both orders and as one file, read by pops and by peek-pop pairs, each run and each reference reading in a freshly forked image: starts must be non-decreasing with an all-day occurrence starting at 00:00:00 of its day, the delivered (UID, start) multiset must be the union of what the constituents deliver alone, a peek must show what the next pop returns.  A fourth driver (c03_tworules, also registered for C07 and C16) compares an event that has two recurrence sources - 5 pairs of RRULEs that meet, interleave or are disjoint, in UTC and in four zones, at three times of day and in three seasons; an RRULE plus RDATE lists that repeat rule occurrences; RDATE lists whose members are written as dates, UTC date-times and TZID local times, every subset in every order - with the duplicate-free union of the events that carry one source each (strictly increasing), and the selection echs_instant_matches_p makes on a merged stream with the union of the selections on its constituents.',
-        'note': 'Not covered: more than 4 constituents or 3 occurrences each, duplicates inside one constituent (not settled by the '
+                 'prefix the stream is cloned and the clone must deliver what the original goes on to deliver.  A further driver (c02_zonemix, mode rdate) feeds RDATE lists whose values are written in different forms (UTC / three fixed-offset zones, every assignment) and requires the stream to be non-decreasing and complete.  A third driver (c03_forms) merges every subset of 2-3 (thorough 2-5) out of eight constituents whose occurrences are WRITTEN differently - all-day dates (daily and weekly), UTC date-times at 00:00:00, 12:00 and 23:59:59, local times of Europe/Berlin (across its DST switch), America/New_York and Asia/Tokyo that fall on or next to UTC midnight - by vmux in both orders and as one file, read by pops and by peek-pop pairs, each run and each reference reading in a freshly forked image: starts must be non-decreasing with an all-day occurrence starting at 00:00:00 of its day, the delivered (UID, start) multiset must be the union of what the constituents deliver alone, a peek must show what the next pop returns.  A fourth driver (c03_tworules, also registered for C07 and C16) compares an event that has two recurrence sources - 5 pairs of RRULEs that meet, interleave or are disjoint, in UTC and in four zones, at three times of day and in three seasons; an RRULE plus RDATE lists that repeat rule occurrences; RDATE lists whose members are written as dates, UTC date-times and TZID local times, every subset in every order - with the duplicate-free union of the events that carry one source each (strictly increasing), and the selection echs_instant_matches_p makes on a merged stream with the union of the selections on its constituents.  A fifth driver (c03_wide) leaves the small bound in two directions.  mode=wide: N = 1..70 (thorough 1..140) one-rule events with own UIDs and pairwise distinct instants (three daily occurrences each, order in time different from argument order) are merged by each of the four constructors of evstrm.h (echs_evstrm_mux and echs_evstrm_mux_clon through one variadic call site closed by NULL, echs_evstrm_vmux, echs_evstrm_vmux_clon; originals of the cloning constructors freed before reading) and read by pops and by peek-peek-pop: exactly the 3N arithmetically known occurrences come out, each once under its UID, in increasing order, a peek shows what the pop returns, the end stays the end.  mode=long: 44 events whose rule has 200 occurrences (or what an UNTIL admits) and whose delivered instants are not the instants the rule is stepped in - DTSTART in a zone with daylight saving (Berlin, New York, Sydney, London; daily from the first of every month of 2020 and from mid-month, every second day, weekly on two days, monthly, every 7 hours), a calendar with CALSCALE:HIJRI.IA (daily date/date-time, weekly, monthly, Gregorian-written DTSTART), plus UTC / Tokyo / all-day controls: the event read alone by pops gives list A; alone by peek-peek-pop both peeks equal the pop and the list is A; merged with a second recurring event by vmux of two files (both orders), one file (both orders) and echs_evstrm_mux, by pops and by peek-peek-pop, the occurrences under its UID are exactly A, those under the other UID exactly what that event delivers alone, nothing else, starts non-decreasing; with one additional RDATE on the same event (the two-stream mux of make_task) the stream is the duplicate-free sorted union of A and the RDATE-only reading.',
+        'note': 'Not covered: all peek/pop sequences on more than 4 constituents or 3 occurrences each (c03_wide reads wide and long merges by two fixed styles only), duplicates inside one constituent (not settled by the '
                 'property text), more than 2 consecutive peeks.  Clone is used as an oracle, it is not part of the property; clone defects '
                 'are reported under clone-*/crash signatures.',
         'rule': 'case = one configuration (constituents x construction path); evaluation = one maximal operation sequence executed from '
@@ -36,12 +36,13 @@ def register(PROPS):
                      'ALL peek/pop sequences with <= 2 consecutive peeks + 2 calls past the end, each also with the clone oracle at every prefix; '
                      'ASan variant (every prefix additionally replayed and freed mid-way): plain 1-3 streams with lists <= 1 (3504 configurations), '
                      '4 streams with lists <= 1 through vmux and mux (8192), rrules with 2 rules, RDATE in {none,{t2},{t1,t2,t3}}, second event '
-                     'in {none, a|b x {t2},{t1,t2,t3}} (735)',
+                     'in {none, a|b x {t2},{t1,t2,t3}} (735); c03_wide: wide N = 1..70 x 4 constructors x 2 reading styles (560 merges + 70 constituents alone), '
+                     'long 44 events x (alone peek-peek-pop + 5 merge paths x 2 styles) + 5 events with an RDATE x 2 styles = 494 readings of 199-500 occurrences, plain and ASan',
             'thorough': 'plain family: 1-3 streams with all 8 lists x 6 paths (26208 configurations) and 4 streams with all 8 lists x 5 paths '
                         '(327680; echs_evstrm_mux is left out at 4 streams in the plain build because its heap overrun makes the run '
                         'irreproducible, it is covered under ASan); rrules family: 2-3 RRULEs (392 tuples) x 8 x 15 = 47040 configurations; same '
                         'sequences and clone oracle; ASan variant with mid-way frees: plain 1-3 streams lists <= 2 (17724), 4 streams lists <= 1 '
-                        'x 6 paths (24576), rrules with 2 rules (5880).  Run end to end: 273 million sequences.',
+                        'x 6 paths (24576), rrules with 2 rules (5880).  Run end to end: 273 million sequences.  c03_wide: wide N = 1..140 (1120 merges + 140 alone), long as in quick.',
         },
         'drivers': [
             D('c02_zonemix', ['mode=rdate', 'maxlist=4'], ['mode=rdate', 'maxlist=5'], label='zonemix-rdate', shards=4),
@@ -52,6 +53,10 @@ def register(PROPS):
             D('c03_tworules', ['mode=filter'], label='filter-on-merged', shards=2),
             D('c03_tworules', ['mode=rules'], label='two-sources-rules-asan', shards=4, variant='asan'),
             D('c03_forms', ['maxn=2'], ['maxn=3'], label='forms-asan', shards=4, variant='asan'),
+            D('c03_wide', ['mode=wide', 'nmax=70'], ['mode=wide', 'nmax=140'], label='wide', shards=8),
+            D('c03_wide', ['mode=wide', 'nmax=70'], ['mode=wide', 'nmax=140'], label='wide-asan', shards=8, variant='asan', env=ASAN_ENV),
+            D('c03_wide', ['mode=long'], label='long', shards=8),
+            D('c03_wide', ['mode=long'], label='long-asan', shards=8, variant='asan', env=ASAN_ENV),
             D('c03_mux', ['fam=plain', 'nmax=3', 'lmax=2'], ['fam=plain', 'nmax=3', 'lmax=3', '--deadline', '420'], label='plain'),
             # four streams: echs_evstrm_mux() overruns its 24-byte array from the 4th stream on (known finding); what a plain build does
             # after that is not reproducible, so that constructor gets its 4-stream configurations under ASan only (below)
@@ -76,6 +81,11 @@ def register(PROPS):
             'streams are handed to the constructors fresh (unconsumed), as evical.c and echse.c do; ownership follows the code: '
             'echs_evstrm_vmux takes the streams over, echs_evstrm_mux clones and the originals are freed at once',
             'a NULL stream (event without DTSTART) is the empty constituent; a NULL merged stream is the empty stream',
+            'c03_wide: ownership follows the code, not the comments of evstrm.h: echs_evstrm_mux and echs_evstrm_vmux_clon clone (the originals are freed before the merge '
+            'is read, except a single stream that vmux_clon hands through as it is), echs_evstrm_mux_clon and echs_evstrm_vmux take the streams over',
+            'c03_wide mode=long is differential: what the long event delivers alone by pops is the reference (it must have the stated number of occurrences and be '
+            'strictly increasing, otherwise precond/ is reported); whether those instants are the right ones is the business of C07/C15/C16.  Order is judged on the '
+            'digits as delivered (zone/scale tags taken off), which is meaningful because both events of a Hijri case live in one Hijri calendar',
             'several events with one UID are combined at library level (vmux of their streams); echse(1) itself replaces an earlier '
             'event by a later one with the same UID before muxing, which is a policy above the mux',
         ],
